@@ -174,6 +174,27 @@ CheckOpaque(n) ==
      /\ (o.rok /\ o.dsame) \/ Say("opq", n, "ref/dump/other")
      /\ (o.jrok /\ o.jdsame) \/ Say("opq", n, "ref/dumpjson/other")
 
-Check == IF Obs[i].kind = "parse" THEN CheckParse(i) ELSE IF Obs[i].kind = "opq" THEN CheckOpaque(i) ELSE CheckFix(i)
+\* kind "opqc" (C10 round 4): a class spec reached through a CALLABLE type (Callable[..., Base], Callable[[int], Base],
+\* Optional[Callable[[int], Base]]) whose init_args are not plain scalars once parsed (Enum, Tuple, Set, pathlib.Path, timedelta,
+\* nested dataclass).  The laws of CheckOpaque, and: the dumped tree (yaml: ser, json: jser) is SerForm(first) -- the serialised form
+\* of every init arg -- and the route through the plain class type (pfirst / pser / pjser: the same class and init_args given to
+\* `--m: Base`, plus the parameter `skip` that a Callable[[int], .] leaves to the caller) gives the same value and the same tree.
+CheckCallableSpec(n) ==
+  LET o == Obs[n]
+      fst == V(o.first)
+      pf == V(o.pfirst)
+  IN /\ o.vok \/ Say("opqc", n, "ref/validate")
+     /\ (o.sok /\ V(o.second) = fst) \/ Say("opqc", n, "ref/second/other")
+     /\ V(o.after) = fst \/ Say("opqc", n, "ref/after-dump")
+     /\ (o.tok /\ V(o.third) = fst) \/ Say("opqc", n, "ref/third/other")
+     /\ (o.rok /\ o.dsame) \/ Say("opqc", n, "ref/dump/other")
+     /\ (o.jrok /\ o.jdsame) \/ Say("opqc", n, "ref/dumpjson/other")
+     /\ (o.draised \/ (Serialised(V(o.ser)) /\ SerMatch(SerForm(fst), V(o.ser)))) \/ Say("opqc", n, "ref/serialised/yaml")
+     /\ (o.jdraised \/ (Serialised(V(o.jser)) /\ SerMatch(SerForm(fst), V(o.jser)))) \/ Say("opqc", n, "ref/serialised/json")
+     /\ SpecEq(DropArg(pf, o.skip), fst) \/ Say("opqc", n, "ref/route/first")
+     /\ (o.draised \/ (SerMatch(SerForm(pf), V(o.pser)) /\ SerMatch(DropArg(SerForm(pf), o.skip), V(o.ser)))) \/ Say("opqc", n, "ref/route/dump")
+     /\ (o.jdraised \/ (SerMatch(SerForm(pf), V(o.pjser)) /\ SerMatch(DropArg(SerForm(pf), o.skip), V(o.jser)))) \/ Say("opqc", n, "ref/route/dumpjson")
+
+Check == IF Obs[i].kind = "parse" THEN CheckParse(i) ELSE IF Obs[i].kind = "opq" THEN CheckOpaque(i) ELSE IF Obs[i].kind = "opqc" THEN CheckCallableSpec(i) ELSE CheckFix(i)
 Inv == Check \/ TRUE
 =============================================================================
